@@ -1225,6 +1225,198 @@ Proof.
 Qed.
 End KeepProp.
 
+(** * (E) a value child guarded by a sibling mode child *)
+(** get_or_add of an element whose parent exists *)
+Definition ensure (p : path) (s : st) : st := if present p s then s else add_elem p [] s.
+
+Lemma do_step_ensure p v s : present (parent p) s = true -> do_step (SEnsure p []) v s = (ensure p s, Ok v).
+Proof. intros H. cbn [do_step]. unfold ensure. destruct (present p s); auto. rewrite H. auto. Qed.
+
+Lemma ensure_present p s : p <> [] -> present p (ensure p s) = true.
+Proof.
+  intros Hp. unfold ensure. destruct (present p s) eqn:E; auto.
+  rewrite present_add_elem by auto. rewrite path_eqb_refl. auto.
+Qed.
+Lemma ensure_keeps p s q : WF s -> p <> [] -> present q s = true -> present q (ensure p s) = true.
+Proof.
+  intros Hwf Hp Hq. unfold ensure. destruct (present p s) eqn:E; auto. apply present_add_elem_keep; auto.
+Qed.
+Lemma ensure_wf p s : WF s -> p <> [] -> present (parent p) s = true -> WF (ensure p s).
+Proof. intros Hwf Hp Hpar. unfold ensure. destruct (present p s); auto. apply WF_add_elem; auto. Qed.
+Lemma ensure_lookup p s k : is_prefix p (fst k) = false -> lookup k (ensure p s) = lookup k s.
+Proof. intros H. unfold ensure. destruct (present p s); auto. apply lookup_add_elem_other; auto. Qed.
+
+Lemma do_step_set_present p a c k v s : present p s = true ->
+  do_step (SSetAttr p a c k) v s =
+  (fst (attr_set p a c k (av_val v) s), match snd (attr_set p a c k (av_val v) s) with Ok _ => Ok v | Err e => Err e end).
+Proof. intros H. cbn [do_step]. rewrite H. destruct (attr_set p a c k (av_val v) s) as [s' [u|e]]; auto. Qed.
+Lemma do_step_with_const w p a c k v s : present p s = true ->
+  do_step (SWith (fun _ => Ok (plain w)) (SSetAttr p a c k)) v s =
+  (fst (attr_set p a c k w s), match snd (attr_set p a c k w s) with Ok _ => Ok v | Err e => Err e end).
+Proof.
+  intros H. cbn [do_step]. rewrite H. cbn [av_val plain]. destruct (attr_set p a c k w s) as [s' [u|e]]; auto.
+Qed.
+
+Lemma forallb_present_mono ch s s' : (forall q, present q s = true -> present q s' = true) ->
+  forallb (fun l => present (lv_path l) s) ch = true -> forallb (fun l => present (lv_path l) s') ch = true.
+Proof.
+  intros H. induction ch as [|l r IH]; cbn [forallb]; auto. intros E.
+  apply andb_true_iff in E as [A B]. rewrite (H _ A), IH; auto.
+Qed.
+
+Lemma chain_exec_top p i a s : parent p = [] ->
+  exists s1, chain_exec [{| lv_path := p; lv_mode := LEnsure i; lv_absent := a |}] s = (s1, true).
+Proof.
+  intros Hp. cbn [chain_exec lv_mode lv_path]. destruct (present p s); eauto.
+  rewrite Hp. cbn [present]. eauto.
+Qed.
+
+Section ModedProp.
+Variables (ch : list level) (box m x : path) (zero : cond) (off : res pyval) (md : attr_decl) (on : pyval) (d : attr_decl).
+Let cd := ad_codec d.
+Let kd := ad_kind d.
+Let cm := ad_codec md.
+Let km := ad_kind md.
+Hypothesis box_nonroot : box <> [].
+Hypothesis m_child : parent m = box.
+Hypothesis x_child : parent x = box.
+Hypothesis x_not_above_m : is_prefix x m = false.
+Hypothesis chain_above : forallb (fun l => negb (is_prefix box (lv_path l))) ch = true.
+
+Lemma moded_m_nonroot : m <> [].
+Proof. intros E. rewrite E in m_child. cbn in m_child. congruence. Qed.
+Lemma moded_x_nonroot : x <> [].
+Proof. intros E. rewrite E in x_child. cbn in x_child. congruence. Qed.
+Lemma moded_keys_differ a b : key_eqb (m, Some a) (x, Some b) = false.
+Proof.
+  unfold key_eqb. cbn [fst snd]. destruct (path_eqb m x) eqn:E; auto.
+  apply path_eqb_eq in E. rewrite E, is_prefix_refl in x_not_above_m. discriminate.
+Qed.
+
+(** the state after an assignment that is not the [zero] one *)
+Definition moded_after (w : pyval) (s1 : st) : st :=
+  let s3 := ensure m (ensure box s1) in
+  let s4 := fst (attr_set m (ad_attr md) cm km on s3) in
+  fst (attr_set x (ad_attr d) cd kd w (ensure x s4)).
+
+Lemma moded_run v s s1 :
+  chain_exec ch s = (s1, true) -> present (parent box) s1 = true -> WF s1 ->
+  cond_eval zero v s1 = false -> accepts cd kd (av_val v) = true -> accepts cm km on = true ->
+  run (moded_prog ch box m x zero md on d) v s = (moded_after (av_val v) s1, Ok tt).
+Proof.
+  intros Hch Hpar Hwf1 Hz Hacc Hon. unfold moded_prog. cbn [run]. fold cd kd. rewrite check_accepts, Hacc.
+  rewrite chain_prog_run, Hch. cbn [fst snd run]. rewrite Hz. cbn [run].
+  rewrite (do_step_ensure box v s1 Hpar).
+  set (s2 := ensure box s1).
+  assert (Hb2 : present box s2 = true) by (apply ensure_present; auto).
+  assert (Hwf2 : WF s2) by (apply ensure_wf; auto).
+  rewrite (do_step_ensure m v s2) by (rewrite m_child; auto).
+  set (s3 := ensure m s2).
+  assert (Hm3 : present m s3 = true) by (apply ensure_present, moded_m_nonroot).
+  assert (Hwf3 : WF s3) by (apply ensure_wf; [auto|apply moded_m_nonroot|rewrite m_child; auto]).
+  assert (Hb3 : present box s3 = true) by (apply ensure_keeps; auto; apply moded_m_nonroot).
+  rewrite (do_step_with_const on m (ad_attr md) (ad_codec md) (ad_kind md) v s3 Hm3). fold cm km.
+  destruct (attr_set_get m (ad_attr md) cm km on s3 Hon) as [A _].
+  unfold moded_after. fold s2. fold s3.
+  destruct (attr_set m (ad_attr md) cm km on s3) as [s4 r4] eqn:E4. cbn [fst snd] in *. subst r4.
+  assert (Hb4 : present box s4 = true) by (rewrite (attr_set_present _ _ _ _ _ _ _ _ box E4); auto).
+  rewrite (do_step_ensure x v s4) by (rewrite x_child; auto).
+  assert (Hx5 : present x (ensure x s4) = true) by (apply ensure_present, moded_x_nonroot).
+  rewrite (do_step_set_present x (ad_attr d) cd kd v (ensure x s4) Hx5).
+  destruct (attr_set_get x (ad_attr d) cd kd (av_val v) (ensure x s4) Hacc) as [B _].
+  destruct (attr_set x (ad_attr d) cd kd (av_val v) (ensure x s4)) as [s6 r6] eqn:E6. cbn [fst snd] in *. subst r6. auto.
+Qed.
+
+(** C09_get_set for (E): from EVERY well-formed state -- whatever mode, value or children another producer left
+    there -- an accepted value that is not the [zero] one reads back as stored, and the mode attribute reads [on] *)
+Theorem moded_prop_get_set v s s1 on2 :
+  WF s -> chain_exec ch s = (s1, true) -> present (parent box) s1 = true ->
+  cond_eval zero v s1 = false -> accepts cd kd (av_val v) = true ->
+  accepts cm km on = true -> stored cm km on = Ok on2 -> py_eqb on2 on = true ->
+  snd (run (moded_prog ch box m x zero md on d) v s) = Ok tt
+  /\ eval (moded_gexp ch box m x off md on d) (fst (run (moded_prog ch box m x zero md on d) v s)) = stored cd kd (av_val v)
+  /\ attr_get m (ad_attr md) cm km (fst (run (moded_prog ch box m x zero md on d) v s)) = Ok on2
+  /\ WF (fst (run (moded_prog ch box m x zero md on d) v s)).
+Proof.
+  intros Hwf Hch Hpar Hz Hacc Hon Hst Heq.
+  destruct (chain_exec_ok _ _ _ Hwf Hch) as [Hwf1 [Hall _]].
+  rewrite (moded_run v s s1 Hch Hpar Hwf1 Hz Hacc Hon). cbn [fst snd]. split; auto.
+  unfold moded_after.
+  set (s2 := ensure box s1).
+  assert (Hb2 : present box s2 = true) by (apply ensure_present; auto).
+  assert (Hwf2 : WF s2) by (apply ensure_wf; auto).
+  set (s3 := ensure m s2).
+  assert (Hm3 : present m s3 = true) by (apply ensure_present, moded_m_nonroot).
+  assert (Hwf3 : WF s3) by (apply ensure_wf; [auto|apply moded_m_nonroot|rewrite m_child; auto]).
+  destruct (attr_set_get m (ad_attr md) cm km on s3 Hon) as [_ Gm].
+  destruct (attr_set m (ad_attr md) cm km on s3) as [s4 r4] eqn:E4. cbn [fst] in *.
+  assert (Hwf4 : WF s4) by (eapply attr_set_wf; eauto).
+  assert (P4 : forall q, present q s4 = present q s3) by (intros q; apply (attr_set_present _ _ _ _ _ _ _ _ q E4)).
+  assert (Hb4 : present box s4 = true).
+  { rewrite P4. apply ensure_keeps; auto. apply moded_m_nonroot. }
+  set (s5 := ensure x s4).
+  assert (Hx5 : present x s5 = true) by (apply ensure_present, moded_x_nonroot).
+  assert (Hwf5 : WF s5) by (apply ensure_wf; [auto|apply moded_x_nonroot|rewrite x_child; auto]).
+  destruct (attr_set_get x (ad_attr d) cd kd (av_val v) s5 Hacc) as [_ Gx].
+  destruct (attr_set x (ad_attr d) cd kd (av_val v) s5) as [s6 r6] eqn:E6. cbn [fst] in *.
+  assert (P6 : forall q, present q s6 = present q s5) by (intros q; apply (attr_set_present _ _ _ _ _ _ _ _ q E6)).
+  assert (K : forall q, present q s1 = true -> present q s6 = true).
+  { intros q Hq. rewrite P6. apply ensure_keeps; [auto|apply moded_x_nonroot|]. rewrite P4.
+    apply ensure_keeps; [auto|apply moded_m_nonroot|]. apply ensure_keeps; auto. }
+  (* the mode attribute is not touched by what follows its assignment *)
+  assert (Gm6 : attr_get m (ad_attr md) cm km s6 = Ok on2).
+  { rewrite <- Hst, <- Gm. unfold attr_get.
+    rewrite (attr_set_frame _ _ _ _ _ _ _ _ (m, Some (ad_attr md)) E6) by apply moded_keys_differ.
+    unfold s5. rewrite ensure_lookup by (cbn [fst]; auto). auto. }
+  split; [|split; [auto|eapply attr_set_wf; eauto]].
+  unfold moded_gexp. rewrite chain_get_present by (apply (forallb_present_mono ch s1); auto).
+  cbn [eval].
+  assert (Hb6 : present box s6 = true).
+  { rewrite P6. apply ensure_keeps; [auto|apply moded_x_nonroot|auto]. }
+  assert (Hm6 : present m s6 = true).
+  { rewrite P6. apply ensure_keeps; [auto|apply moded_x_nonroot|]. rewrite P4. auto. }
+  rewrite Hb6, P6, Hx5, Hm6. fold cm km. rewrite Gm6. unfold mode_gate. rewrite Heq. fold cd kd. auto.
+Qed.
+
+(** C09_none for (E): the [zero] value removes the box and the property reads [off] *)
+Theorem moded_prop_zero v s s1 :
+  WF s -> chain_exec ch s = (s1, true) -> present (parent box) s1 = true ->
+  cond_eval zero v s1 = true -> accepts cd kd (av_val v) = true ->
+  run (moded_prog ch box m x zero md on d) v s = (del_sub box s1, Ok tt)
+  /\ eval (moded_gexp ch box m x off md on d) (del_sub box s1) = off.
+Proof.
+  intros Hwf Hch Hpar Hz Hacc.
+  destruct (chain_exec_ok _ _ _ Hwf Hch) as [Hwf1 [Hall _]].
+  split.
+  - unfold moded_prog. cbn [run]. fold cd kd. rewrite check_accepts, Hacc.
+    rewrite chain_prog_run, Hch. cbn [fst snd run]. rewrite Hz. cbn [run do_step].
+    rewrite Hpar, (proj2 (nonroot_spec box) box_nonroot). auto.
+  - unfold moded_gexp. rewrite chain_get_present by (apply forallb_present_del_sub; auto).
+    cbn [eval]. rewrite present_del_sub. destruct box as [|b0 br]; [congruence|]. rewrite is_prefix_refl. auto.
+Qed.
+
+(** C09_reject for (E): the value is validated before anything is touched *)
+Theorem moded_prop_reject v s :
+  accepts cd kd (av_val v) = false ->
+  exists e, enc cd (av_val v) = Err e /\ run (moded_prog ch box m x zero md on d) v s = (s, Err e).
+Proof.
+  intros Hacc. destruct (attr_set_reject [] [] cd kd (av_val v) s Hacc) as [e [He _]]. exists e. split; auto.
+  unfold moded_prog. cbn [run]. fold cd kd. rewrite check_accepts, Hacc, He. auto.
+Qed.
+
+(** what the reader makes of a mode another producer wrote: while the mode attribute reads anything but [on],
+    the property reads [off] whatever the value child holds *)
+Theorem moded_foreign_mode_reads_off s mode o :
+  forallb (fun l => present (lv_path l) s) ch = true ->
+  attr_get m (ad_attr md) cm km s = Ok mode -> py_eqb mode on = false -> off = Ok o -> o <> PNone ->
+  eval (moded_gexp ch box m x off md on d) s = off.
+Proof.
+  intros Hall Hm Hne Hoff Ho. unfold moded_gexp. rewrite chain_get_present by auto. cbn [eval].
+  destruct (present box s); auto. destruct (present x s); auto. destruct (present m s); auto.
+  fold cm km. rewrite Hm. unfold mode_gate. rewrite Hne, Hoff. destruct o; congruence.
+Qed.
+End ModedProp.
+
 (** * histories *)
 (** A family of properties over one element: abstractly, getters and setters with the three
     laws (read-after-write, refusal leaves the state, independence).  Then after ANY sequence
